@@ -48,7 +48,36 @@ def parse_gen(integ, w):
             yield norm_item(pj.terms.item_from_rdflib(x))
 
 
+_SHARED = {}
+
+
+def stream_gen(integ, w, shared):
+    """generator at STATEMENT granularity on the Stream API: yields after every stream.triple()/quad() call.
+    With shared=True every workload is built from ONE SerializerOptions object (a module-level constant, as users do)."""
+    spec = WL[w]
+    phys = spec["phys"]
+    if shared:
+        key = (integ, phys)
+        if key not in _SHARED:
+            _SHARED[key] = pj.make_options(phys, frame_size=4, prefixes=4, datatypes=4, generalized=False, rdf_star=False)
+        opts = _SHARED[key]
+    else:
+        opts = pj.make_options(phys, frame_size=4, prefixes=spec["pf"], datatypes=spec["dt"], generalized=False, rdf_star=False)
+    stream = pj.gen_stream(phys, opts) if integ == "generic" else pj.PHYS_STREAM[phys].for_rdflib(opts)
+    conv = pj.terms.item_to_generic if integ == "generic" else pj.rdf_item
+    stream.enroll()
+    for it in spec["items"]:
+        fr = (stream.triple if phys == 1 else stream.quad)(conv(it))
+        yield pj.write_frames([fr], True) if fr is not None else b""
+    fr = stream.flow.to_stream_frame()
+    yield pj.write_frames([fr], True) if fr is not None else b""
+
+
 def make(kind, integ, w):
+    if kind == "stream":
+        return stream_gen(integ, w, False)
+    if kind == "sstream":
+        return stream_gen(integ, w, True)
     return ser_gen(integ, w) if kind == "ser" else parse_gen(integ, w)
 
 
@@ -76,6 +105,7 @@ def interleave(sched: List[bool], h: int) -> bool:
     integ = P["integ"]
     ws = P["workloads"]  # e.g. [["ser","A"],["ser","B"]] or [["ser","A"],["parse","B"]]
     try:
+        _SHARED.clear()
         with notrace():
             solo = [list(make(k, integ, w)) for k, w in ws]
             solo2 = [list(make(k, integ, w)) for k, w in ws]
